@@ -128,6 +128,9 @@ pub struct FuncDef {
     /// takes one `ptr<function, u32>` parameter (instead of the value parameter)
     #[serde(default, skip_serializing_if = "is_false")]
     pub ptr: bool,
+    /// the helper takes a value of this struct and returns it (`fn f(v: S) -> S { return v; }`); no other parameter, no body
+    #[serde(default, skip_serializing_if = "Option::is_none")]
+    pub via_struct: Option<String>,
     /// with `ptr`: the pointee is this struct (a function-local variable of that type is passed) instead of u32
     #[serde(default, skip_serializing_if = "Option::is_none")]
     pub ptr_struct: Option<String>,
